@@ -113,13 +113,35 @@ def write_evidence(prop: str, tier: str, seed: int, coverage: dict, assumptions:
     os.replace(tmp, path)
 
 
+def reproduction_snippet(case: dict, clause: str, detail: str) -> str:
+    """A plain function that re-creates the failing input with nothing but the library (the oracle stays in mc)."""
+    head = f"# {clause}\n# {detail[:300]}\n"
+    if isinstance(case.get("graph"), list):
+        g = {str(i): [str(t) for t in row] for i, row in enumerate(case["graph"])}
+        stages = {"0": [], "J": ["join_returns"], "JL": ["join_returns", "restructure_loop"]}.get(
+            str(case.get("stage")), ["join_returns", "restructure_loop", "restructure_branch"])
+        body = "".join(f"    scfg.{st}()\n" for st in stages)
+        return (head + "def test_replay():\n    from numba_scfg.core.datastructures.scfg import SCFG\n"
+                "    from numba_scfg.core.datastructures.basic_block import BasicBlock\n"
+                f"    g = {g!r}\n"
+                "    scfg = SCFG(graph={n: BasicBlock(name=n, _jump_targets=tuple(t)) for n, t in g.items()})\n"
+                + body + "    return scfg   # inspect: scfg.graph, RegionBlock.header/exiting/subregion, ...\n")
+    if isinstance(case.get("source"), str):
+        return (head + "def test_replay():\n    import ast\n"
+                "    from numba_scfg.core.datastructures.ast_transforms import AST2SCFG, SCFG2AST\n"
+                f"    src = {case['source']!r}\n"
+                "    scfg = AST2SCFG(src)\n    scfg.restructure()\n    return ast.unparse(SCFG2AST(src, scfg))\n")
+    return head
+
+
 def write_replay(prop: str, v: dict) -> str:
     d = os.path.join(os.environ.get("VERIF_REPLAY_DIR") or os.path.join(VERIF, "replays"), prop)
     os.makedirs(d, exist_ok=True)
     path = os.path.join(d, f"{v['key']}.json")
     with open(path, "w") as f:
         json.dump({"property": prop, "fingerprint": v["fp"], "clause": v["clause"], "detail": v["detail"],
-                   "case": v.get("case", {}), "how": f"cd /verif && /venv/bin/python -m mc replay {path}"},
+                   "case": v.get("case", {}), "how": f"cd /verif && /venv/bin/python -m mc replay {path}",
+                   "reproduce_with_library_only": reproduction_snippet(v.get("case", {}), v["clause"], v["detail"])},
                   f, indent=1, default=str)
     return path
 
@@ -162,6 +184,11 @@ def run_check(prop: str, tier: str, seed: int) -> int:
     res = mod.run(tier, seed)          # -> dict(acc=Acc, coverage=dict, assumptions=list)
     acc: Acc = res["acc"]
     known = load_known(prop)
+    if os.environ.get("VERIF_DUMP_VIOLS"):
+        # maintenance aid (tools/snapshot_witnesses.sh): list every violating instance of this run
+        with open(os.environ["VERIF_DUMP_VIOLS"], "a") as f:
+            for v in acc.viols:
+                f.write(f"{v['fp']}\t{v['key']}\t{tier}\t{v['detail'][:100]}\n")
     unknown: Dict[str, List[dict]] = collections.OrderedDict()
     for v in acc.viols:
         hit = None
